@@ -307,10 +307,35 @@ Section NbxSched.
   Lemma prog_ibar r f barr acc : prog_of r (RLoop f barr acc AtIbar) = Do (Coll K_IBARRIER (-1) []) (fun _ => nbx_loop f tag true acc (NK r)).
   Proof. destruct barr; reflexivity. Qed.
 
+  (* the transitions of a rank's ghost state; the flag says whether the step is PRODUCTIVE (false: an empty poll, Testall = 0, Test = 0) *)
+  Inductive gstep (r : Z) : rstate -> rstate -> bool -> Prop :=
+  | g_send j : gstep r (RSend j) (mkstate r (S j)) true
+  | g_hit f barr acc x : gstep r (RLoop (S f) barr acc AtPoll) (RLoop f barr (x :: acc) AtCheck) true
+  | g_miss f barr acc : gstep r (RLoop (S f) barr acc AtPoll) (RLoop f barr acc AtCheck) false
+  | g_tall_yes f acc : gstep r (RLoop f false acc AtCheck) (RLoop f false acc AtIbar) true
+  | g_tall_no f acc : gstep r (RLoop f false acc AtCheck) (RLoop f false acc AtPoll) false
+  | g_ibar f barr acc : gstep r (RLoop f barr acc AtIbar) (RLoop f true acc AtPoll) true
+  | g_test_yes f acc : gstep r (RLoop f true acc AtCheck) (RDone acc) true
+  | g_test_no f acc : gstep r (RLoop f true acc AtCheck) (RLoop f true acc AtPoll) false.
+
+  (* what an unproductive step has observed *)
+  Definition idle_ok (s : pst) (r : Z) (old : rstate) (pb : bool) : Prop :=
+    pb = false ->
+    match old with
+    | RLoop _ barr _ p =>
+      match p with
+      | AtPoll => nothing P (pch s) r tag = true
+      | AtCheck => if barr then allbar P (pbar s) = false else allsent P nbx_stags (pch s) r = false
+      | AtIbar => False
+      end
+    | _ => False
+    end.
+
   Ltac prog_shape I Est E :=
     match type of E with @eq prog (ppr ?s ?r) ?rhs => rewrite (n_prog s _ I r), Est in E; rewrite ?prog_poll, ?prog_ibar in E; cbn [prog_of] in E end.
 
-  Theorem NInv_step s st r s' : NInv s st -> step_p P nbx_poll nbx_stags s r s' -> exists st', NInv s' st'.
+  Theorem NInv_step s st r s' : NInv s st -> step_p P nbx_poll nbx_stags s r s' ->
+    exists new pb, gstep r (st r) new pb /\ idle_ok s r (st r) pb /\ NInv s' (upds st r new).
   Proof.
     intros I Hs.
     destruct (st r) as [j|f barr acc p|acc|] eqn:Est.
@@ -321,7 +346,7 @@ Section NbxSched.
         unfold msgs. rewrite (map_nth (fun d => (d, tag, nitem r d))). reflexivity. }
       inversion Hs as [? ? d t m k E|? ? src t k m q S0 E C|? ? src t k m q E Ep C|? ? src t k m q E Ep C|? ? t k E Ep En
                       |? ? root c k E|? ? root c k E|? ? root c k E]; subst; prog_shape I Est E; rewrite Hsk in E; cbn [do_sends] in E; unfold send in E; try discriminate.
-      injection E as <- <- <- <-. eexists. exact (NInv_send s st r j I Est).
+      injection E as <- <- <- <-. exists (mkstate r (S j)), true. split; [constructor|]. split; [discriminate|]. exact (NInv_send s st r j I Est).
     - destruct p.
       + (* at the poll *)
         destruct f as [|f].
@@ -332,8 +357,9 @@ Section NbxSched.
           -- injection E as E1 E2 E3. unfold ANY in E1. lia.
           -- injection E as <- <-. rewrite nbx_poll_tag in Ep. discriminate.
           -- (* hit *) injection E as <- <-. destruct (NInv_hit s st r f barr acc src m q I Est C) as [H0 [-> Hinv]].
-             eexists. cbv zeta. cbn [hd tl]. replace (src <? 0) with false by lia. rewrite check_prog. exact Hinv.
-          -- (* miss *) injection E as <- <-. eexists. cbv zeta. cbn [hd]. change (-1 <? 0) with true. cbv iota. rewrite check_prog.
+             exists (RLoop f barr ((src, nitem src r) :: acc) AtCheck), true. split; [constructor|]. split; [discriminate|].
+             cbv zeta. cbn [hd tl]. replace (src <? 0) with false by lia. rewrite check_prog. exact Hinv.
+          -- (* miss *) injection E as <- <-. exists (RLoop f barr acc AtCheck), false. split; [constructor|]. split; [intros _; exact En|]. cbv zeta. cbn [hd]. change (-1 <? 0) with true. cbv iota. rewrite check_prog.
              apply (NInv_keep s st r (RLoop f barr acc AtCheck)); try assumption; try reflexivity; try discriminate.
              ++ apply (in_range_of s st r I). rewrite Est. discriminate.
              ++ rewrite Est. reflexivity.
@@ -346,7 +372,7 @@ Section NbxSched.
                           |? ? root c k E|? ? root c k E|? ? root c k E]; subst; prog_shape I Est E; try discriminate.
           injection E as _ _ <-. destruct (allbar P (pbar s)) eqn:Eb; cbn [flag hd Z.eqb].
           -- (* the barrier is complete: return *)
-             eexists. apply (NInv_keep s st r (RDone acc)); try assumption; try reflexivity; try discriminate.
+             exists (RDone acc), true. split; [constructor|]. split; [discriminate|]. apply (NInv_keep s st r (RDone acc)); try assumption; try reflexivity; try discriminate.
              ++ apply (in_range_of s st r I). rewrite Est. discriminate.
              ++ rewrite Est. reflexivity.
              ++ intros d. rewrite Est. reflexivity.
@@ -356,7 +382,7 @@ Section NbxSched.
                 rewrite allbar_spec in Eb. pose proof (Eb q Hq) as Hbq. rewrite (n_bar s st I q) in Hbq.
                 assert (Hcq : complete (st q) = true) by (destruct (st q) as [?|? [|] ? ?|?|]; try discriminate; reflexivity).
                 pose proof (n_cmp s st I q Hcq r Hrq) as Hrc. apply rcvdb_In in Hrc. rewrite Est in Hrc. exact Hrc.
-          -- eexists. apply (NInv_keep s st r (RLoop f true acc AtPoll)); try assumption; try reflexivity; try discriminate.
+          -- exists (RLoop f true acc AtPoll), false. split; [constructor|]. split; [intros _; exact Eb|]. apply (NInv_keep s st r (RLoop f true acc AtPoll)); try assumption; try reflexivity; try discriminate.
              ++ apply (in_range_of s st r I). rewrite Est. discriminate.
              ++ rewrite Est. reflexivity.
              ++ intros d. rewrite Est. reflexivity.
@@ -366,7 +392,7 @@ Section NbxSched.
                           |? ? root c k E|? ? root c k E|? ? root c k E]; subst; prog_shape I Est E; try discriminate.
           injection E as _ _ <-. destruct (allsent P nbx_stags (pch s) r) eqn:Eb; cbn [flag hd Z.eqb].
           -- (* all synchronous sends matched: next the Ibarrier *)
-             eexists. apply (NInv_keep s st r (RLoop f false acc AtIbar)); try assumption; try reflexivity; try discriminate.
+             exists (RLoop f false acc AtIbar), true. split; [constructor|]. split; [discriminate|]. apply (NInv_keep s st r (RLoop f false acc AtIbar)); try assumption; try reflexivity; try discriminate.
              ++ apply (in_range_of s st r I). rewrite Est. discriminate.
              ++ rewrite Est. reflexivity.
              ++ intros d. rewrite Est. reflexivity.
@@ -375,7 +401,7 @@ Section NbxSched.
                 rewrite allsent_spec in Eb. specialize (Eb d tag (proj2 (HR r Hr) d Hd) (or_introl eq_refl)).
                 rewrite (n_ch s st I r d tag) in Eb. unfold tag in Eb at 1. rewrite Z.eqb_refl, Est in Eb. cbn [sentb andb] in Eb.
                 rewrite (proj2 (memz_In d (R r)) Hd) in Eb. cbn [andb] in Eb. destruct (rcvdb (st d) r); [reflexivity|discriminate].
-          -- eexists. apply (NInv_keep s st r (RLoop f false acc AtPoll)); try assumption; try reflexivity; try discriminate.
+          -- exists (RLoop f false acc AtPoll), false. split; [constructor|]. split; [intros _; exact Eb|]. apply (NInv_keep s st r (RLoop f false acc AtPoll)); try assumption; try reflexivity; try discriminate.
              ++ apply (in_range_of s st r I). rewrite Est. discriminate.
              ++ rewrite Est. reflexivity.
              ++ intros d. rewrite Est. reflexivity.
@@ -384,7 +410,7 @@ Section NbxSched.
         assert (Hc0 : complete (st r) = true) by (rewrite Est; destruct barr; reflexivity).
         inversion Hs as [? ? d t m k E|? ? src t k m q S0 E C|? ? src t k m q E Ep C|? ? src t k m q E Ep C|? ? t k E Ep En
                         |? ? root c k E|? ? root c k E|? ? root c k E]; subst; prog_shape I Est E; try discriminate.
-        injection E as _ _ <-. eexists. apply (NInv_keep s st r (RLoop f true acc AtPoll)); try assumption; try reflexivity; try discriminate.
+        injection E as _ _ <-. exists (RLoop f true acc AtPoll), true. split; [constructor|]. split; [discriminate|]. apply (NInv_keep s st r (RLoop f true acc AtPoll)); try assumption; try reflexivity; try discriminate.
         * apply (in_range_of s st r I). rewrite Est. discriminate.
         * rewrite Est. reflexivity.
         * intros d. rewrite Est. reflexivity.
@@ -396,7 +422,7 @@ Section NbxSched.
   Lemma NInv_run : forall n s0 s st, NInv s0 st -> run_p P nbx_poll nbx_stags n s0 s -> exists st', NInv s st'.
   Proof.
     induction n as [|n IH]; intros s0 s st I Hr; inversion Hr as [|? ? r s1 ? Hs Hrest]; subst; [eauto|].
-    destruct (NInv_step s0 st r s1 I Hs) as [st1 I1]. exact (IH s1 s st1 I1 Hrest).
+    destruct (NInv_step s0 st r s1 I Hs) as [new [pb [_ [_ I1]]]]. exact (IH s1 s _ I1 Hrest).
   Qed.
 
   (* SAFETY: the invariant holds in every reachable state *)
@@ -578,7 +604,8 @@ Section NbxSched.
 
   Lemma nbx_move s st : NInv s st ->
     pfinal s \/ (exists r, 0 <= r < P /\ at_fuel_mark s r) \/
-    (exists r s' st', step_p P nbx_poll nbx_stags s r s' /\ NInv s' st' /\ (Phi st' < Phi st)%nat).
+    (exists r s' new pb, 0 <= r < P /\ step_p P nbx_poll nbx_stags s r s' /\ gstep r (st r) new pb /\ NInv s' (upds st r new) /\
+                         (phi r new < phi r (st r))%nat).
   Proof.
     intros I.
     destruct (find_rank (fun r => is_send (st r))) as [[r [Hr Hp]]|Hnosend].
@@ -589,8 +616,8 @@ Section NbxSched.
       { rewrite (skipn_nth (0, tag, nitem r 0)) by (unfold msgs; rewrite map_length; exact Hj). f_equal.
         unfold msgs. rewrite (map_nth (fun d => (d, tag, nitem r d))). reflexivity. }
       rewrite Hsk in Hprog. cbn [do_sends] in Hprog. unfold send in Hprog.
-      eexists r, _, _. split; [eapply stepp_send; exact Hprog|]. split; [exact (NInv_send s st r j I Est)|].
-      apply Phi_upd; [exact Hr|]. rewrite Est. unfold mkstate. destruct (Nat.ltb_spec (S j) (length (R r))); cbn [phi]; [lia|].
+      exists r; eexists; exists (mkstate r (S j)), true. split; [exact Hr|]. split; [eapply stepp_send; exact Hprog|]. split; [rewrite Est; constructor|]. split; [exact (NInv_send s st r j I Est)|].
+      rewrite Est. unfold mkstate. destruct (Nat.ltb_spec (S j) (length (R r))); cbn [phi]; [lia|].
       unfold need. cbn [acc_of length]. destruct (Nat.eqb_spec (length (T r) - 0) 0); lia. }
     assert (Hsent : forall a b, 0 <= a < P -> In b (R a) -> sentb (st a) a b = true).
     { intros a b Ha Hb. specialize (Hnosend a Ha). destruct (st a) as [j|f barr acc p|acc|] eqn:Est; cbn [is_send sentb] in *; try discriminate; try (apply memz_In; exact Hb).
@@ -610,14 +637,14 @@ Section NbxSched.
             replace (rcvdb (st b) a) with false; [reflexivity|]. symmetry. destruct (rcvdb (st b) a) eqn:Erc; [|reflexivity].
             apply rcvdb_In in Erc. rewrite Est in Erc. contradiction. }
           destruct (NInv_hit s st b f barr acc a (nitem a b) [] I Est Hch) as [H0 [_ Hinv]].
-          eexists b, _, _. split; [eapply stepp_hit; [exact Hprog|apply nbx_poll_tag|exact Hch]|].
+          exists b; eexists; exists (RLoop f barr ((a, nitem a b) :: acc) AtCheck), true. split; [exact Hb|]. split; [eapply stepp_hit; [exact Hprog|apply nbx_poll_tag|exact Hch]|]. split; [rewrite Est; constructor|].
           cbv zeta. cbn [hd tl]. replace (a <? 0) with false by lia. rewrite check_prog. split; [exact Hinv|].
-          apply Phi_upd; [exact Hb|]. rewrite Est. unfold need in *. cbn [phi acc_of length] in *. unfold need. cbn [acc_of length].
+          rewrite Est. unfold need in *. cbn [phi acc_of length] in *. unfold need. cbn [acc_of length].
           destruct (Nat.eqb_spec (length (T b) - length acc) 0); [lia|]. destruct (Nat.eqb_spec (length (T b) - S (length acc)) 0); [destruct barr; lia|lia].
         + (* at the check: one (possibly idle) step brings it back to the poll *)
           right. right. destruct barr; cbn [prog_of] in Hprog.
           * destruct (allbar P (pbar s)) eqn:Eb.
-            -- eexists b, _, _. split; [eapply stepp_test; exact Hprog|]. rewrite Eb. cbn [flag hd Z.eqb]. split.
+            -- exists b; eexists; exists (RDone acc), true. split; [exact Hb|]. split; [eapply stepp_test; exact Hprog|]. split; [rewrite Est; constructor|]. rewrite Eb. cbn [flag hd Z.eqb]. split.
                ++ apply (NInv_keep s st b (RDone acc)); try assumption; try reflexivity; try discriminate.
                   ** rewrite Est. reflexivity.
                   ** intros d. rewrite Est. reflexivity.
@@ -627,17 +654,17 @@ Section NbxSched.
                      rewrite allbar_spec in Eb. pose proof (Eb q Hq) as Hbq. rewrite (n_bar s st I q) in Hbq.
                      assert (Hcq : complete (st q) = true) by (destruct (st q) as [?|? [|] ? ?|?|]; try discriminate; reflexivity).
                      pose proof (n_cmp s st I q Hcq b Hrq) as Hrc. apply rcvdb_In in Hrc. rewrite Est in Hrc. exact Hrc.
-               ++ apply Phi_upd; [exact Hb|]. rewrite Est. cbn [phi]. destruct (Nat.eqb_spec (need b (RLoop f true acc AtCheck)) 0); lia.
-            -- eexists b, _, _. split; [eapply stepp_test; exact Hprog|]. rewrite Eb. cbn [flag hd Z.eqb]. split.
+               ++ rewrite Est. cbn [phi]. destruct (Nat.eqb_spec (need b (RLoop f true acc AtCheck)) 0); lia.
+            -- exists b; eexists; exists (RLoop f true acc AtPoll), false. split; [exact Hb|]. split; [eapply stepp_test; exact Hprog|]. split; [rewrite Est; constructor|]. rewrite Eb. cbn [flag hd Z.eqb]. split.
                ++ apply (NInv_keep s st b (RLoop f true acc AtPoll)); try assumption; try reflexivity; try discriminate.
                   ** rewrite Est. reflexivity.
                   ** intros d. rewrite Est. reflexivity.
                   ** intros y. rewrite (n_bar s st I y). unfold upds. destruct (Z.eqb_spec y b) as [Ey|Ey]; [subst y; rewrite Est; reflexivity|reflexivity].
                   ** intros _. apply (n_cmp s st I b). rewrite Est. reflexivity.
-               ++ apply Phi_upd; [exact Hb|]. rewrite Est. unfold need in *. cbn [phi acc_of] in *. unfold need. cbn [acc_of].
+               ++ rewrite Est. unfold need in *. cbn [phi acc_of] in *. unfold need. cbn [acc_of].
                   destruct (Nat.eqb_spec (length (T b) - length acc) 0); lia.
           * destruct (allsent P nbx_stags (pch s) b) eqn:Eb.
-            -- eexists b, _, _. split; [eapply stepp_testall; exact Hprog|]. rewrite Eb. cbn [flag hd Z.eqb]. split.
+            -- exists b; eexists; exists (RLoop f false acc AtIbar), true. split; [exact Hb|]. split; [eapply stepp_testall; exact Hprog|]. split; [rewrite Est; constructor|]. rewrite Eb. cbn [flag hd Z.eqb]. split.
                ++ apply (NInv_keep s st b (RLoop f false acc AtIbar)); try assumption; try reflexivity; try discriminate.
                   ** rewrite Est. reflexivity.
                   ** intros d. rewrite Est. reflexivity.
@@ -645,24 +672,24 @@ Section NbxSched.
                   ** intros _ d Hd. rewrite allsent_spec in Eb. specialize (Eb d tag (proj2 (HR b Hb) d Hd) (or_introl eq_refl)).
                      rewrite (n_ch s st I b d tag) in Eb. unfold tag in Eb at 1. rewrite Z.eqb_refl, Est in Eb. cbn [sentb andb] in Eb.
                      rewrite (proj2 (memz_In d (R b)) Hd) in Eb. cbn [andb] in Eb. destruct (rcvdb (st d) b); [reflexivity|discriminate].
-               ++ apply Phi_upd; [exact Hb|]. rewrite Est. unfold need in *. cbn [phi acc_of] in *. unfold need. cbn [acc_of].
+               ++ rewrite Est. unfold need in *. cbn [phi acc_of] in *. unfold need. cbn [acc_of].
                   destruct (Nat.eqb_spec (length (T b) - length acc) 0); lia.
-            -- eexists b, _, _. split; [eapply stepp_testall; exact Hprog|]. rewrite Eb. cbn [flag hd Z.eqb]. split.
+            -- exists b; eexists; exists (RLoop f false acc AtPoll), false. split; [exact Hb|]. split; [eapply stepp_testall; exact Hprog|]. split; [rewrite Est; constructor|]. rewrite Eb. cbn [flag hd Z.eqb]. split.
                ++ apply (NInv_keep s st b (RLoop f false acc AtPoll)); try assumption; try reflexivity; try discriminate.
                   ** rewrite Est. reflexivity.
                   ** intros d. rewrite Est. reflexivity.
                   ** intros y. rewrite (n_bar s st I y). unfold upds. destruct (Z.eqb_spec y b) as [Ey|Ey]; [subst y; rewrite Est; reflexivity|reflexivity].
-               ++ apply Phi_upd; [exact Hb|]. rewrite Est. unfold need in *. cbn [phi acc_of] in *. unfold need. cbn [acc_of].
+               ++ rewrite Est. unfold need in *. cbn [phi acc_of] in *. unfold need. cbn [acc_of].
                   destruct (Nat.eqb_spec (length (T b) - length acc) 0); lia.
         + right. right. rewrite prog_ibar in Hprog.
           assert (Hc0 : complete (st b) = true) by (rewrite Est; destruct barr; reflexivity).
-          eexists b, _, _. split; [eapply stepp_ibar; exact Hprog|]. split.
+          exists b; eexists; exists (RLoop f true acc AtPoll), true. split; [exact Hb|]. split; [eapply stepp_ibar; exact Hprog|]. split; [rewrite Est; constructor|]. split.
           * apply (NInv_keep s st b (RLoop f true acc AtPoll)); try assumption; try reflexivity; try discriminate.
             -- rewrite Est. reflexivity.
             -- intros d. rewrite Est. reflexivity.
             -- intros y. unfold updb, upds. destruct (Z.eqb_spec y b) as [Ey|Ey]; [reflexivity|apply (n_bar s st I y)].
             -- intros _. apply (n_cmp s st I b Hc0).
-          * apply Phi_upd; [exact Hb|]. rewrite Est. unfold need in *. cbn [phi acc_of] in *. unfold need. cbn [acc_of].
+          * rewrite Est. unfold need in *. cbn [phi acc_of] in *. unfold need. cbn [acc_of].
             destruct (Nat.eqb_spec (length (T b) - length acc) 0); lia.
       - exfalso. apply Hp. rewrite <- Est. apply (done_need0 s st b acc I Est).
       - exfalso. apply (proj1 (n_out s st I b) Est). exact Hb. }
@@ -688,45 +715,45 @@ Section NbxSched.
       destruct p.
       + rewrite prog_poll in Hprog. destruct f as [|f]; [right; left; exists r; split; [exact Hr|eexists; exact Hprog]|]. right. right.
         rewrite nbx_loop_S in Hprog.
-        eexists r, _, _. split; [eapply stepp_miss; [exact Hprog|apply nbx_poll_tag|apply Hnothing]|].
+        exists r; eexists; exists (RLoop f barr acc AtCheck), false. split; [exact Hr|]. split; [eapply stepp_miss; [exact Hprog|apply nbx_poll_tag|apply Hnothing]|]. split; [rewrite Est; constructor|].
         cbv zeta. cbn [hd]. change (-1 <? 0) with true. cbv iota. rewrite check_prog. split.
         * apply (NInv_keep s st r (RLoop f barr acc AtCheck)); try assumption; try reflexivity; try discriminate.
           -- rewrite Est. reflexivity.
           -- intros d. rewrite Est. reflexivity.
           -- intros y. rewrite (n_bar s st I y). unfold upds. destruct (Z.eqb_spec y r) as [Ey|Ey]; [subst y; rewrite Est; destruct barr; reflexivity|reflexivity].
           -- intros Hc. apply (n_cmp s st I r). rewrite Est. destruct barr; [reflexivity|discriminate].
-        * apply Phi_upd; [exact Hr|]. rewrite Est. unfold need in *. cbn [phi acc_of] in *. unfold need. cbn [acc_of]. rewrite Hn0. cbn [Nat.eqb]. destruct barr; lia.
+        * rewrite Est. unfold need in *. cbn [phi acc_of] in *. unfold need. cbn [acc_of]. rewrite Hn0. cbn [Nat.eqb]. destruct barr; lia.
       + right. right. destruct barr; cbn [prog_of] in Hprog.
         * (* every rank has posted the barrier: Test says 1 *)
           assert (Eb : allbar P (pbar s) = true).
           { apply allbar_spec. intros q Hq. rewrite (n_bar s st I q). apply Hbar; [reflexivity|exact Hq]. }
-          eexists r, _, _. split; [eapply stepp_test; exact Hprog|]. rewrite Eb. cbn [flag hd Z.eqb]. split.
+          exists r; eexists; exists (RDone acc), true. split; [exact Hr|]. split; [eapply stepp_test; exact Hprog|]. split; [rewrite Est; constructor|]. rewrite Eb. cbn [flag hd Z.eqb]. split.
           -- apply (NInv_keep s st r (RDone acc)); try assumption; try reflexivity; try discriminate.
              ++ rewrite Est. reflexivity.
              ++ intros d. rewrite Est. reflexivity.
              ++ intros y. rewrite (n_bar s st I y). unfold upds. destruct (Z.eqb_spec y r) as [Ey|Ey]; [subst y; rewrite Est; reflexivity|reflexivity].
              ++ intros _. apply (n_cmp s st I r). rewrite Est. reflexivity.
              ++ intros acc' Hacc q Hq. injection Hacc as <-. pose proof (need0_all s st r I (Hneed0 r Hr) q Hq) as Hin. rewrite Est in Hin. exact Hin.
-          -- apply Phi_upd; [exact Hr|]. rewrite Est. cbn [phi]. rewrite Hn0. cbn [Nat.eqb]. lia.
+          -- rewrite Est. cbn [phi]. rewrite Hn0. cbn [Nat.eqb]. lia.
         * (* all channels are empty: Testall says 1 *)
           assert (Eb : allsent P nbx_stags (pch s) r = true) by (apply allsent_spec; intros d t _ _; apply Hempty).
-          eexists r, _, _. split; [eapply stepp_testall; exact Hprog|]. rewrite Eb. cbn [flag hd Z.eqb]. split.
+          exists r; eexists; exists (RLoop f false acc AtIbar), true. split; [exact Hr|]. split; [eapply stepp_testall; exact Hprog|]. split; [rewrite Est; constructor|]. rewrite Eb. cbn [flag hd Z.eqb]. split.
           -- apply (NInv_keep s st r (RLoop f false acc AtIbar)); try assumption; try reflexivity; try discriminate.
              ++ rewrite Est. reflexivity.
              ++ intros d. rewrite Est. reflexivity.
              ++ intros y. rewrite (n_bar s st I y). unfold upds. destruct (Z.eqb_spec y r) as [Ey|Ey]; [subst y; rewrite Est; reflexivity|reflexivity].
              ++ intros _ d Hd. pose proof (Hempty r d tag) as Hc. rewrite (n_ch s st I r d tag) in Hc. unfold tag in Hc at 1.
                 rewrite Z.eqb_refl, (Hsent r d Hr Hd) in Hc. cbn [andb] in Hc. destruct (rcvdb (st d) r); [reflexivity|discriminate].
-          -- apply Phi_upd; [exact Hr|]. rewrite Est. unfold need in *. cbn [phi acc_of] in *. unfold need. cbn [acc_of]. rewrite Hn0. cbn [Nat.eqb]. lia.
+          -- rewrite Est. unfold need in *. cbn [phi acc_of] in *. unfold need. cbn [acc_of]. rewrite Hn0. cbn [Nat.eqb]. lia.
       + right. right. rewrite prog_ibar in Hprog.
         assert (Hc0 : complete (st r) = true) by (rewrite Est; destruct barr; reflexivity).
-        eexists r, _, _. split; [eapply stepp_ibar; exact Hprog|]. split.
+        exists r; eexists; exists (RLoop f true acc AtPoll), true. split; [exact Hr|]. split; [eapply stepp_ibar; exact Hprog|]. split; [rewrite Est; constructor|]. split.
         * apply (NInv_keep s st r (RLoop f true acc AtPoll)); try assumption; try reflexivity; try discriminate.
           -- rewrite Est. reflexivity.
           -- intros d. rewrite Est. reflexivity.
           -- intros y. unfold updb, upds. destruct (Z.eqb_spec y r) as [Ey|Ey]; [reflexivity|apply (n_bar s st I y)].
           -- intros _. apply (n_cmp s st I r Hc0).
-        * apply Phi_upd; [exact Hr|]. rewrite Est. unfold need in *. cbn [phi acc_of] in *. unfold need. cbn [acc_of]. rewrite Hn0. cbn [Nat.eqb]. destruct barr; lia.
+        * rewrite Est. unfold need in *. cbn [phi acc_of] in *. unfold need. cbn [acc_of]. rewrite Hn0. cbn [Nat.eqb]. destruct barr; lia.
     - discriminate.
     - exfalso. apply (proj1 (n_out s st I r) Est). exact Hr.
   Qed.
@@ -735,10 +762,11 @@ Section NbxSched.
     exists m s', run_p P nbx_poll nbx_stags m s s' /\ (m <= k)%nat /\ (pfinal s' \/ exists r, 0 <= r < P /\ at_fuel_mark s' r).
   Proof.
     induction k as [k IH] using lt_wf_ind. intros s st I Hk.
-    destruct (nbx_move s st I) as [Hf|[Hm|[r [s1 [st1 [Hs [I1 Hlt]]]]]]].
+    destruct (nbx_move s st I) as [Hf|[Hm|[r [s1 [new [pb [Hrr [Hs [_ [I1 Hlt0]]]]]]]]]].
     - exists 0%nat, s. split; [constructor|]. split; [lia|left; exact Hf].
     - exists 0%nat, s. split; [constructor|]. split; [lia|right; exact Hm].
-    - destruct (IH (Phi st1) ltac:(lia) s1 st1 I1 eq_refl) as [m [s' [Hr [Hle Hend]]]].
+    - pose proof (Phi_upd st r new Hrr Hlt0) as Hlt.
+      destruct (IH (Phi (upds st r new)) ltac:(lia) s1 _ I1 eq_refl) as [m [s' [Hr [Hle Hend]]]].
       exists (S m), s'. split; [econstructor; eassumption|]. split; [lia|exact Hend].
   Qed.
 
@@ -749,4 +777,357 @@ Section NbxSched.
   Proof.
     intros Hr. destruct (nbx_safety n s Hr) as [st I]. destruct (nbx_reach_final (Phi st) s st I eq_refl) as [m [s' [H1 [_ H2]]]]. eauto.
   Qed.
+  (* ---- THE FUEL: the model's loop bound is not hit as long as the run is shorter than fuel -------------------------------------------------
+     every iteration of the loop of a rank is at least one step of the run: a rank in the loop with f iterations left after n steps
+     has fuel <= f + n *)
+  Definition floor (st : rstate) : nat := match st with RLoop f _ _ _ => f | _ => fuel end.
+  Definition fuel_inv (n : nat) (st : Z -> rstate) : Prop := forall r, (fuel <= floor (st r) + n)%nat.
+
+  Lemma gstep_floor r old new pb : gstep r old new pb -> (floor new = fuel \/ floor old <= S (floor new))%nat.
+  Proof. intros H. inversion H; subst; cbn [floor]; unfold mkstate; try (destruct (_ <? _)%nat); cbn [floor]; lia. Qed.
+
+  Lemma fuel_inv_init : fuel_inv 0 st0.
+  Proof. intros r. unfold st0, mkstate. destruct (inr P r); [destruct (_ <? _)%nat|]; cbn [floor]; lia. Qed.
+
+  Lemma fuel_inv_step n st r new pb : fuel_inv n st -> gstep r (st r) new pb -> fuel_inv (S n) (upds st r new).
+  Proof.
+    intros Hf Hg y. unfold upds. destruct (Z.eqb_spec y r) as [Ey|Ey]; [subst y|specialize (Hf y); lia].
+    pose proof (gstep_floor r _ _ _ Hg). specialize (Hf r). lia.
+  Qed.
+
+  Lemma NInv_run_fuel : forall n s0 s st k, NInv s0 st -> fuel_inv k st -> run_p P nbx_poll nbx_stags n s0 s ->
+    exists st', NInv s st' /\ fuel_inv (k + n) st'.
+  Proof.
+    induction n as [|n IH]; intros s0 s st k I Hf Hr; inversion Hr as [|? ? r s1 ? Hs Hrest]; subst.
+    - exists st. rewrite Nat.add_0_r. auto.
+    - destruct (NInv_step s0 st r s1 I Hs) as [new [pb [Hg [_ I1]]]].
+      destruct (IH s1 s _ (S k) I1 (fuel_inv_step k st r new pb Hf Hg) Hrest) as [st' [I' Hf']]. exists st'. split; [exact I'|].
+      replace (k + S n)%nat with (S k + n)%nat by lia. exact Hf'.
+  Qed.
+
+  Lemma nbx_reachable n s : run_p P nbx_poll nbx_stags n nbx_sys s -> exists st, NInv s st /\ fuel_inv n st.
+  Proof. intros Hr. exact (NInv_run_fuel n nbx_sys s st0 0 NInv_init fuel_inv_init Hr). Qed.
+
+  Lemma fuel_mark_floor s st r : NInv s st -> at_fuel_mark s r -> floor (st r) = 0%nat.
+  Proof.
+    intros I [k Hk]. rewrite (n_prog s st I r) in Hk. destruct (st r) as [j|f barr acc p|acc|] eqn:Est.
+    - exfalso. pose proof (n_send s st I r j Est) as Hj. cbn [prog_of] in Hk.
+      rewrite (skipn_nth (0, tag, nitem r 0)) in Hk by (unfold msgs; rewrite map_length; exact Hj).
+      destruct (nth j (msgs r) (0, tag, nitem r 0)) as [[d t] m]. cbn [do_sends] in Hk. unfold send in Hk. discriminate.
+    - destruct p.
+      + rewrite prog_poll in Hk. destruct f as [|f]; [reflexivity|]. rewrite nbx_loop_S in Hk. discriminate.
+      + exfalso. destruct barr; cbn [prog_of] in Hk; injection Hk as E _; vm_compute in E; discriminate E.
+      + exfalso. rewrite prog_ibar in Hk. injection Hk as E _. vm_compute in E. discriminate E.
+    - exfalso. cbn [prog_of] in Hk. destruct (NK_ret r (rev acc)) as [o Ho]. rewrite Ho in Hk. discriminate.
+    - discriminate.
+  Qed.
+
+  (* a bound for the potential in terms of P and the pattern *)
+  Definition nbx_bound : nat := list_sum (map (fun r => 3 * length (R r) + 3 * length (T r) + 8)%nat (ranks P)).
+
+  Lemma phi_le r st : (phi r st <= 3 * length (R r) + 3 * length (T r) + 8)%nat.
+  Proof.
+    destruct st as [j|f barr acc p|acc|]; cbn [phi]; try lia. unfold need. cbn [acc_of].
+    destruct (Nat.eqb_spec (length (T r) - length acc) 0); [destruct p, barr; lia|destruct p; lia].
+  Qed.
+
+  Lemma Phi_le st : (Phi st <= nbx_bound)%nat.
+  Proof. unfold Phi, nbx_bound. apply SemRounds.list_sum_le. intros r _. apply phi_le. Qed.
+
+  Theorem nbx_reach_final_fuel : forall k s st n, NInv s st -> fuel_inv n st -> Phi st = k -> (n + k < fuel)%nat ->
+    exists m s', run_p P nbx_poll nbx_stags m s s' /\ (m <= k)%nat /\ pfinal s'.
+  Proof.
+    induction k as [k IH] using lt_wf_ind. intros s st n I Hf Hk Hfuel.
+    destruct (nbx_move s st I) as [Hfin|[[r [Hr Hm]]|[r [s1 [new [pb [Hrr [Hs [Hg [I1 Hlt0]]]]]]]]]].
+    - exists 0%nat, s. split; [constructor|]. split; [lia|exact Hfin].
+    - exfalso. pose proof (fuel_mark_floor s st r I Hm) as H0. specialize (Hf r). lia.
+    - pose proof (Phi_upd st r new Hrr Hlt0) as Hlt.
+      destruct (IH (Phi (upds st r new)) ltac:(lia) s1 _ (S n) I1 (fuel_inv_step n st r new pb Hf Hg) eq_refl ltac:(lia)) as [m [s' [Hr [Hle Hend]]]].
+      exists (S m), s'. split; [econstructor; eassumption|]. split; [lia|exact Hend].
+  Qed.
+
+  (* NBX, EVERY SCHEDULE (without fairness): for every run of n steps with n + nbx_bound < fuel - for the C loop, which has no bound, every
+     finite run - (a) if the state is final it is correct, (b) no rank is blocked, (c) a FINAL state is reachable by at most nbx_bound
+     further steps *)
+  Theorem nbx_every_schedule n s : run_p P nbx_poll nbx_stags n nbx_sys s -> (n + nbx_bound < fuel)%nat ->
+    (pfinal s ->
+       (forall r, 0 <= r < P -> exists o, Permutation o (transpose P R r) /\ (sorted = true -> o = transpose P R r) /\
+                                         ppr s r = Ret (result o (if hp then map (fun q => pay q r) o else []))) /\
+       (forall a b t, pch s a b t = []) /\ (forall r, 0 <= r < P -> pbar s r = true)) /\
+    (forall r, 0 <= r < P -> (exists o, ppr s r = Ret o) \/ exists s', step_p P nbx_poll nbx_stags s r s') /\
+    (exists m s', run_p P nbx_poll nbx_stags m s s' /\ (m <= nbx_bound)%nat /\ pfinal s').
+  Proof.
+    intros Hr Hfuel. destruct (nbx_reachable n s Hr) as [st [I Hf]]. split; [exact (nbx_final n s Hr)|]. split.
+    - intros r Hrr. destruct (nbx_never_blocked n s Hr r Hrr) as [H|[H|H]]; [left; exact H| |right; exact H].
+      exfalso. pose proof (fuel_mark_floor s st r I H) as H0. specialize (Hf r). lia.
+    - pose proof (Phi_le st) as Hle.
+      destruct (nbx_reach_final_fuel (Phi st) s st n I Hf eq_refl ltac:(lia)) as [m [s' [H1 [H2 H3]]]]. exists m, s'. split; [exact H1|]. split; [lia|exact H3].
+  Qed.
+  (* ---- FAIRNESS: every weakly fair run terminates ---------------------------------------------------------------------------------------------
+     Rho counts the PRODUCTIVE steps still to come (sends, successful polls, the Testall that says 1, the Ibarrier, the Test that says 1):
+     it is unchanged by an unproductive step (empty poll, Testall = 0, Test = 0) and drops by exactly 1 on every other step.  In every
+     non-final reachable state there is a CRITICAL rank c: its next step is productive, or its next step is an unproductive check that
+     brings it to a poll which is productive - whatever the other ranks do in between, as long as they only make unproductive steps.
+     Hence every segment of a run in which every rank that has not returned steps at least twice contains a productive step, and a run
+     made of nbx_rounds such segments ends in a final state. *)
+  Definition unsent (r : Z) (st : rstate) : nat := match st with RSend j => length (R r) - j | _ => 0 end.
+  Definition phase (st : rstate) : nat :=
+    match st with
+    | RSend _ => 3
+    | RLoop _ barr _ p => match p with AtIbar => 2 | _ => if barr then 1 else 3 end
+    | RDone _ => 0
+    | ROut => 0
+    end.
+  Definition rho (r : Z) (st : rstate) : nat := unsent r st + need r st + phase st.
+  Definition Rho (st : Z -> rstate) : nat := list_sum (map (fun r => rho r (st r)) (ranks P)).
+  Definition nbx_rounds : nat := list_sum (map (fun r => length (R r) + length (T r) + 3)%nat (ranks P)).
+
+  Lemma sum_upd_eq (g h : Z -> nat) : forall l r, NoDup l -> In r l -> (forall y, y <> r -> h y = g y) ->
+    (list_sum (map h l) + g r = list_sum (map g l) + h r)%nat.
+  Proof.
+    induction l as [|x l IH]; intros r Hnd Hin Heq; [contradiction|]. inversion Hnd as [|? ? Hx Hnd']; subst. cbn [map list_sum fold_right].
+    change (fold_right Nat.add 0%nat (map h l)) with (list_sum (map h l)). change (fold_right Nat.add 0%nat (map g l)) with (list_sum (map g l)).
+    destruct Hin as [->|Hin].
+    - assert (E : map h l = map g l) by (apply map_ext_in; intros y Hy; apply Heq; intros ->; contradiction). rewrite E. lia.
+    - assert (x <> r) by (intros ->; contradiction). rewrite (Heq x H). specialize (IH r Hnd' Hin Heq). lia.
+  Qed.
+
+  Lemma Rho_upd st r new : 0 <= r < P -> (Rho (upds st r new) + rho r (st r) = Rho st + rho r new)%nat.
+  Proof.
+    intros Hr. unfold Rho.
+    pose proof (sum_upd_eq (fun y => rho y (st y)) (fun y => rho y (upds st r new y)) (ranks P) r (ranks_NoDup P) (proj2 (in_ranks P r) Hr)) as H.
+    cbv beta in H. rewrite upds_same in H. apply H. intros y Hy. rewrite upds_other by exact Hy. reflexivity.
+  Qed.
+
+  Lemma gstep_rho s st r new pb s' : NInv s st -> NInv s' (upds st r new) -> gstep r (st r) new pb ->
+    (rho r new + (if pb then 1 else 0) = rho r (st r))%nat.
+  Proof.
+    intros I I' Hg.
+    assert (Hlen : (length (acc_of new) <= length (T r))%nat).
+    { pose proof (NoDup_incl_length (proj1 (n_acc _ _ I' r)) (acc_incl _ _ r I')) as H. rewrite upds_same, map_length in H. exact H. }
+    remember (st r) as old eqn:Eo. destruct Hg; unfold rho, need in *; cbn [unsent acc_of phase length] in *; try lia; try (destruct barr; lia).
+    pose proof (n_send s st I r j (eq_sym Eo)) as Hj. unfold mkstate. destruct (Nat.ltb_spec (S j) (length (R r))); cbn [unsent acc_of phase length]; lia.
+  Qed.
+
+  Lemma Rho_step s st r new pb s' : NInv s st -> NInv s' (upds st r new) -> 0 <= r < P -> gstep r (st r) new pb ->
+    (Rho (upds st r new) + (if pb then 1 else 0) = Rho st)%nat.
+  Proof. intros I I' Hr Hg. pose proof (gstep_rho s st r new pb s' I I' Hg). pose proof (Rho_upd st r new Hr). lia. Qed.
+
+  (* runs with the ranks that move *)
+  Inductive runl : list Z -> pst -> pst -> Prop :=
+  | runl_nil s : runl [] s s
+  | runl_cons r ls s s1 s2 : step_p P nbx_poll nbx_stags s r s1 -> runl ls s1 s2 -> runl (r :: ls) s s2.
+  Definition cnt (r : Z) (ls : list Z) : nat := count_occ Z.eq_dec ls r.
+
+  Lemma runl_run ls s s' : runl ls s s' -> run_p P nbx_poll nbx_stags (length ls) s s'.
+  Proof. induction 1; [constructor|econstructor; eassumption]. Qed.
+
+  Lemma step_in_range s st r s' : NInv s st -> step_p P nbx_poll nbx_stags s r s' -> 0 <= r < P.
+  Proof.
+    intros I Hs. apply (in_range_of s st r I). intros E. pose proof (n_prog s st I r) as Hp. rewrite E in Hp. cbn [prog_of] in Hp.
+    inversion Hs; subst; congruence.
+  Qed.
+
+  Lemma rho_run_le : forall ls s st s', NInv s st -> runl ls s s' -> exists st', NInv s' st' /\ (Rho st' <= Rho st)%nat.
+  Proof.
+    induction ls as [|y ls IH]; intros s st s' I Hr; inversion Hr as [|? ? ? s1 ? Hs Hrest]; subst; [exists st; split; [exact I|lia]|].
+    destruct (NInv_step s st y s1 I Hs) as [new [pb [Hg [_ I1]]]]. pose proof (Rho_step s st y new pb s1 I I1 (step_in_range s st y s1 I Hs) Hg) as HRho.
+    destruct (IH s1 _ s' I1 Hrest) as [st' [I' Hle]]. exists st'. split; [exact I'|]. destruct pb; lia.
+  Qed.
+
+  Definition nosend (st : Z -> rstate) : Prop := forall y, 0 <= y < P -> is_send (st y) = false.
+  Definition allneed0 (st : Z -> rstate) : Prop := forall y, 0 <= y < P -> need y (st y) = 0%nat.
+  Definition allbarred (st : Z -> rstate) : Prop := forall y, 0 <= y < P -> barred (st y) = true.
+
+  (* crit st c k: c is critical; its k-th step from now (k = 1 or 2) is productive if only unproductive steps happen before *)
+  Inductive crit (st : Z -> rstate) (c : Z) : nat -> Prop :=
+  | c_send j : 0 <= c < P -> st c = RSend j -> crit st c 1
+  | c_need f barr acc p : 0 <= c < P -> nosend st -> st c = RLoop f barr acc p -> need c (st c) <> 0%nat ->
+      crit st c (match p with AtCheck => 2 | _ => 1 end)
+  | c_prebar f acc p : 0 <= c < P -> nosend st -> allneed0 st -> st c = RLoop f false acc p ->
+      crit st c (match p with AtPoll => 2 | _ => 1 end)
+  | c_post f acc p : 0 <= c < P -> nosend st -> allneed0 st -> allbarred st -> st c = RLoop f true acc p ->
+      crit st c (match p with AtPoll => 2 | _ => 1 end).
+
+  Lemma crit_pos st c k : crit st c k -> (1 <= k <= 2)%nat /\ 0 <= c < P /\ is_done (st c) = false /\ st c <> ROut.
+  Proof. intros H. destruct H as [j Hc E|f barr acc p Hc _ E _|f acc p Hc _ _ E|f acc p Hc _ _ _ E]; rewrite E; (split; [try (destruct p); lia|]); (split; [exact Hc|]); (split; [reflexivity|discriminate]). Qed.
+
+  Lemma crit_exists s st : NInv s st -> (exists r, 0 <= r < P /\ is_done (st r) = false) -> exists c k, crit st c k.
+  Proof.
+    intros I [r0 [Hr0 Hnd0]].
+    destruct (find_rank (fun r => is_send (st r))) as [[r [Hr Hp]]|Hnosend].
+    { destruct (st r) as [j| | |] eqn:Est; try discriminate. exists r, 1%nat. eapply c_send; eassumption. }
+    destruct (find_rank (fun r => negb (need r (st r) =? 0)%nat)) as [[b [Hb Hp]]|Hnoneed].
+    { apply negb_true_iff, Nat.eqb_neq in Hp. destruct (st b) as [j|f barr acc p|acc|] eqn:Est.
+      - specialize (Hnosend b Hb). rewrite Est in Hnosend. discriminate.
+      - exists b. eexists. eapply (c_need st b f barr acc p); try eassumption. rewrite Est. exact Hp.
+      - exfalso. apply Hp. rewrite <- Est. apply (done_need0 s st b acc I Est).
+      - exfalso. apply (proj1 (n_out s st I b) Est). exact Hb. }
+    assert (Hneed0 : allneed0 st).
+    { intros r Hr. specialize (Hnoneed r Hr). apply negb_false_iff, Nat.eqb_eq in Hnoneed. exact Hnoneed. }
+    destruct (find_rank (fun q => negb (barred (st q)))) as [[q [Hq Hpq]]|Hallbar].
+    - apply negb_true_iff in Hpq. destruct (st q) as [j|f barr acc p|acc|] eqn:Est.
+      + specialize (Hnosend q Hq). rewrite Est in Hnosend. discriminate.
+      + destruct barr; [discriminate|]. exists q. eexists. eapply (c_prebar st q f acc p); eassumption.
+      + discriminate.
+      + exfalso. apply (proj1 (n_out s st I q) Est). exact Hq.
+    - assert (Hab : allbarred st) by (intros q Hq; specialize (Hallbar q Hq); apply negb_false_iff; exact Hallbar).
+      pose proof (Hab r0 Hr0) as Hb0. destruct (st r0) as [j|f barr acc p|acc|] eqn:Est; try discriminate.
+      destruct barr; [|discriminate]. exists r0. eexists. eapply (c_post st r0 f acc p); eassumption.
+  Qed.
+
+  Lemma idle_attrs y old new : gstep y old new false ->
+    is_send new = is_send old /\ acc_of new = acc_of old /\ barred new = barred old /\ is_send old = false.
+  Proof. intros H. inversion H; subst; cbn; auto. Qed.
+
+  Lemma frozen_upds st y new : gstep y (st y) new false ->
+    (nosend st -> nosend (upds st y new)) /\ (allneed0 st -> allneed0 (upds st y new)) /\ (allbarred st -> allbarred (upds st y new)).
+  Proof.
+    intros Hg. destruct (idle_attrs y _ _ Hg) as [A [B [C D]]]. split; [|split]; intros H z Hz; unfold upds; destruct (Z.eqb_spec z y) as [E|E]; try (apply H; exact Hz); subst z.
+    - rewrite A. apply H. exact Hz.
+    - unfold need. rewrite B. apply (H y Hz).
+    - rewrite C. apply H. exact Hz.
+  Qed.
+
+  (* an unproductive step of another rank leaves c critical *)
+  Lemma crit_other st c k y new : crit st c k -> y <> c -> gstep y (st y) new false -> crit (upds st y new) c k.
+  Proof.
+    intros Hc Hy Hg. destruct (frozen_upds st y new Hg) as [F1 [F2 F3]].
+    destruct Hc as [j Hcr E|f barr acc p Hcr Hns E Hn|f acc p Hcr Hns Hn0 E|f acc p Hcr Hns Hn0 Hab E].
+    - eapply c_send; [exact Hcr|rewrite upds_other by (intros X; apply Hy; auto); exact E].
+    - eapply c_need; [exact Hcr|apply F1; exact Hns|rewrite upds_other by (intros X; apply Hy; auto); exact E|rewrite upds_other by (intros X; apply Hy; auto); exact Hn].
+    - eapply c_prebar; [exact Hcr|apply F1; exact Hns|apply F2; exact Hn0|rewrite upds_other by (intros X; apply Hy; auto); exact E].
+    - eapply c_post; [exact Hcr|apply F1; exact Hns|apply F2; exact Hn0|apply F3; exact Hab|rewrite upds_other by (intros X; apply Hy; auto); exact E].
+  Qed.
+
+  (* a step of the critical rank is productive, or it is the check before its productive poll / the poll before its productive check *)
+  Lemma crit_self s st c k new pb : NInv s st -> crit st c k -> gstep c (st c) new pb -> idle_ok s c (st c) pb ->
+    pb = true \/ (k = 2%nat /\ crit (upds st c new) c 1).
+  Proof.
+    intros I Hc Hg Hi. destruct pb; [left; reflexivity|right]. specialize (Hi eq_refl). destruct (frozen_upds st c new Hg) as [F1 [F2 F3]].
+    destruct Hc as [j Hcr E|f barr acc p Hcr Hns E Hn|f acc p Hcr Hns Hn0 E|f acc p Hcr Hns Hn0 Hab E]; rewrite E in Hg, Hi; inversion Hg; subst.
+    - (* need > 0, at the poll: the poll cannot be empty *)
+      exfalso. cbn in Hi. rewrite nothing_spec in Hi.
+      destruct (pick_missing (T c) (map fst acc) (transpose_NoDup P R c)) as [a [Ha Hna]]; [unfold need in Hn; rewrite E in Hn; cbn [acc_of] in Hn; rewrite map_length; lia|].
+      apply transpose_In in Ha. destruct Ha as [Ha Hca].
+      assert (Hs : sentb (st a) a c = true).
+      { specialize (Hns a Ha). destruct (st a) as [?|? ? ? ?|?|] eqn:Ea; cbn [is_send sentb] in *; try discriminate; try (apply memz_In; exact Hca).
+        exfalso. apply (proj1 (n_out s st I a) Ea). exact Ha. }
+      assert (Hr : rcvdb (st c) a = false).
+      { destruct (rcvdb (st c) a) eqn:Erc; [|reflexivity]. apply rcvdb_In in Erc. rewrite E in Erc. contradiction. }
+      pose proof (Hi a Ha) as Hnil. rewrite (n_ch s st I a c tag), Hs, Hr in Hnil. unfold tag in Hnil. rewrite Z.eqb_refl in Hnil. discriminate.
+    - (* need > 0, Testall = 0: back to the poll *)
+      split; [reflexivity|]. eapply (c_need _ c _ false _ AtPoll); [exact Hcr|apply F1; exact Hns|apply upds_same|].
+      rewrite upds_same. unfold need in *. rewrite E in Hn. exact Hn.
+    - split; [reflexivity|]. eapply (c_need _ c _ true _ AtPoll); [exact Hcr|apply F1; exact Hns|apply upds_same|].
+      rewrite upds_same. unfold need in *. rewrite E in Hn. exact Hn.
+    - (* all received, barrier not posted, empty poll: on to Testall, which will say 1 *)
+      split; [reflexivity|]. eapply (c_prebar _ c _ _ AtCheck); [exact Hcr|apply F1; exact Hns|apply F2; exact Hn0|apply upds_same].
+    - (* Testall = 0 although every channel is empty: impossible *)
+      exfalso. cbn in Hi. assert (Ht : allsent P nbx_stags (pch s) c = true) by (apply allsent_spec; intros d t _ _; apply (all_empty s st I Hn0)). congruence.
+    - split; [reflexivity|]. eapply (c_post _ c _ _ AtCheck); [exact Hcr|apply F1; exact Hns|apply F2; exact Hn0|apply F3; exact Hab|apply upds_same].
+    - (* Test = 0 although every rank has posted the barrier: impossible *)
+      exfalso. cbn in Hi. assert (Ht : allbar P (pbar s) = true) by (apply allbar_spec; intros q Hq; rewrite (n_bar s st I q); apply Hab; exact Hq). congruence.
+  Qed.
+
+  Lemma idle_run : forall ls s st s' c k, NInv s st -> crit st c k -> runl ls s s' ->
+    (exists st', NInv s' st' /\ (Rho st' < Rho st)%nat) \/
+    (exists st' k', NInv s' st' /\ Rho st' = Rho st /\ crit st' c k' /\ (cnt c ls + k' = k)%nat).
+  Proof.
+    induction ls as [|y ls IH]; intros s st s' c k I Hc Hr; inversion Hr as [|? ? ? s1 ? Hs Hrest]; subst.
+    - right. exists st, k. cbn. auto.
+    - destruct (NInv_step s st y s1 I Hs) as [new [pb [Hg [Hi I1]]]].
+      pose proof (Rho_step s st y new pb s1 I I1 (step_in_range s st y s1 I Hs) Hg) as HRho.
+      destruct pb.
+      + left. destruct (rho_run_le ls s1 _ s' I1 Hrest) as [st' [I' Hle]]. exists st'. split; [exact I'|lia].
+      + destruct (Z.eq_dec y c) as [->|Hy].
+        * destruct (crit_self s st c k new false I Hc Hg Hi) as [E|[-> Hc1]]; [discriminate|].
+          destruct (IH s1 _ s' c 1%nat I1 Hc1 Hrest) as [[st' [I' Hlt]]|[st' [k' [I' [E' [Hc' Hcnt]]]]]].
+          -- left. exists st'. split; [exact I'|lia].
+          -- right. exists st', k'. split; [exact I'|]. split; [lia|]. split; [exact Hc'|]. unfold cnt in *. cbn [count_occ]. destruct (Z.eq_dec c c); [lia|contradiction].
+        * pose proof (crit_other st c k y new Hc Hy Hg) as Hc1.
+          destruct (IH s1 _ s' c k I1 Hc1 Hrest) as [[st' [I' Hlt]]|[st' [k' [I' [E' [Hc' Hcnt]]]]]].
+          -- left. exists st'. split; [exact I'|lia].
+          -- right. exists st', k'. split; [exact I'|]. split; [lia|]. split; [exact Hc'|]. unfold cnt in *. cbn [count_occ]. destruct (Z.eq_dec y c); [contradiction|exact Hcnt].
+  Qed.
+
+  Lemma not_ret s st r : NInv s st -> is_done (st r) = false -> st r <> ROut -> forall o, ppr s r <> Ret o.
+  Proof.
+    intros I Hnd Hno o Ho. rewrite (n_prog s st I r) in Ho. destruct (st r) as [j|f barr acc p|acc|] eqn:Est; try discriminate; [|clear Hnd|contradiction].
+    - pose proof (n_send s st I r j Est) as Hj. cbn [prog_of] in Ho.
+      rewrite (skipn_nth (0, tag, nitem r 0)) in Ho by (unfold msgs; rewrite map_length; exact Hj).
+      destruct (nth j (msgs r) (0, tag, nitem r 0)) as [[d t] m]. cbn [do_sends] in Ho. unfold send in Ho. discriminate.
+    - destruct p; [rewrite prog_poll in Ho; destruct f; cbn [nbx_loop] in Ho; discriminate|destruct barr; cbn [prog_of] in Ho; discriminate|rewrite prog_ibar in Ho; discriminate].
+  Qed.
+
+  (* a FAIR SEGMENT: every rank of the communicator has returned at its end or has moved at least twice in it *)
+  Definition fair_seg (ls : list Z) (s1 : pst) : Prop := forall r, 0 <= r < P -> (exists o, ppr s1 r = Ret o) \/ (2 <= cnt r ls)%nat.
+
+  Lemma segment_productive ls s st s' : NInv s st -> runl ls s s' -> (exists r, 0 <= r < P /\ is_done (st r) = false) -> fair_seg ls s' ->
+    exists st', NInv s' st' /\ (Rho st' < Rho st)%nat.
+  Proof.
+    intros I Hr Hnd Hfair. destruct (crit_exists s st I Hnd) as [c [k Hc]].
+    destruct (idle_run ls s st s' c k I Hc Hr) as [H|[st' [k' [I' [_ [Hc' Hcnt]]]]]]; [exact H|exfalso].
+    destruct (crit_pos st c k Hc) as [Hk _]. destruct (crit_pos st' c k' Hc') as [Hk' [Hcr [Hnd' Hno']]].
+    destruct (Hfair c Hcr) as [[o Ho]|H2]; [exact (not_ret s' st' c I' Hnd' Hno' o Ho)|lia].
+  Qed.
+
+  Inductive fair_segs : nat -> pst -> pst -> Prop :=
+  | fs_nil s : fair_segs 0 s s
+  | fs_cons k ls s s1 s2 : runl ls s s1 -> fair_seg ls s1 -> fair_segs k s1 s2 -> fair_segs (S k) s s2.
+
+  Lemma all_done_final s st : NInv s st -> (forall r, 0 <= r < P -> is_done (st r) = true) -> pfinal s.
+  Proof.
+    intros I Hall r. rewrite (n_prog s st I r). destruct (Z_le_dec 0 r) as [H0|H0]; [destruct (Z_lt_dec r P) as [H1|H1]|].
+    - specialize (Hall r (conj H0 H1)). destruct (st r) as [?|? ? ? ?|acc|]; try discriminate. cbn [prog_of]. apply NK_ret.
+    - rewrite (proj2 (n_out s st I r)) by lia. cbn [prog_of]. eauto.
+    - rewrite (proj2 (n_out s st I r)) by lia. cbn [prog_of]. eauto.
+  Qed.
+
+  Lemma runl_final ls s s' : pfinal s -> runl ls s s' -> s' = s.
+  Proof. intros Hf Hr. inversion Hr as [|? ? ? s1 ? Hs Hrest]; subst; [reflexivity|]. exfalso. eapply pfinal_no_step; eauto. Qed.
+
+  Lemma fair_segs_final k s s' : pfinal s -> fair_segs k s s' -> s' = s.
+  Proof. intros Hf H. induction H as [|k ls s s1 s2 Hr _ _ IH]; [reflexivity|]. rewrite (runl_final ls s s1 Hf Hr) in IH. apply IH. exact Hf. Qed.
+
+  Theorem fair_final : forall k s st s', NInv s st -> fair_segs k s s' -> (Rho st <= k)%nat -> pfinal s'.
+  Proof.
+    induction k as [|k IH]; intros s st s' I Hfs Hle.
+    - inversion Hfs; subst. destruct (find_rank (fun r => negb (is_done (st r)))) as [[r [Hr Hp]]|Hall].
+      + exfalso. apply negb_true_iff in Hp.
+        assert (H1 : (1 <= rho r (st r))%nat) by (unfold rho; destruct (st r) as [?|? [|] ? [| |]|?|] eqn:E; cbn [phase]; try lia; try discriminate; exfalso; apply (proj1 (n_out s' st I r) E); exact Hr).
+        assert (H2 : (rho r (st r) <= Rho st)%nat).
+        { unfold Rho. pose proof (proj2 (in_ranks P r) Hr) as Hin. induction (ranks P) as [|x l IHl]; [contradiction|]. cbn [map list_sum fold_right].
+          change (fold_right Nat.add 0%nat (map (fun r0 => rho r0 (st r0)) l)) with (list_sum (map (fun r0 => rho r0 (st r0)) l)).
+          destruct Hin as [->|Hin]; [lia|specialize (IHl Hin); lia]. }
+        lia.
+      + apply (all_done_final s' st I). intros r Hr. specialize (Hall r Hr). apply negb_false_iff. exact Hall.
+    - inversion Hfs as [|? ls ? s1 ? Hr Hfair Hrest]; subst.
+      destruct (find_rank (fun r => negb (is_done (st r)))) as [[r [Hr0 Hp]]|Hall].
+      + apply negb_true_iff in Hp. destruct (segment_productive ls s st s1 I Hr (ex_intro _ r (conj Hr0 Hp)) Hfair) as [st1 [I1 Hlt]].
+        apply (IH s1 st1 s' I1 Hrest). lia.
+      + assert (Hf : pfinal s) by (apply (all_done_final s st I); intros r Hr0; specialize (Hall r Hr0); apply negb_false_iff; exact Hall).
+        rewrite (fair_segs_final (S k) s s' Hf Hfs). exact Hf.
+  Qed.
+
+  Lemma Rho_init : Rho st0 = nbx_rounds.
+  Proof.
+    unfold Rho, nbx_rounds. apply f_equal. apply map_ext_in. intros r Hr. apply in_ranks in Hr. unfold st0. rewrite (proj2 (inr_spec P r) Hr).
+    unfold rho, need, mkstate. destruct (Nat.ltb_spec 0 (length (R r))); cbn [unsent acc_of phase length]; lia.
+  Qed.
+
+  (* NO ENDLESS POLLING UNDER FAIRNESS: a run from the initial state that consists of nbx_rounds = sum over the ranks of (receivers +
+     senders + 3) fair segments - or more - ends in a final state.  (With the unbounded loop of the C code: an infinite weakly fair run
+     would contain arbitrarily many fair segments, every rank that has not returned being always able to step - nbx_every_schedule (b).) *)
+  Theorem nbx_fair_termination k s : fair_segs k nbx_sys s -> (nbx_rounds <= k)%nat -> pfinal s.
+  Proof. intros H Hk. apply (fair_final k nbx_sys st0 s NInv_init H). rewrite Rho_init. exact Hk. Qed.
+
+  (* the number of productive steps of any run is bounded: Rho never increases *)
+  Theorem nbx_productive_bound ls s : runl ls nbx_sys s -> exists st, NInv s st /\ (Rho st <= nbx_rounds)%nat.
+  Proof. intros H. destruct (rho_run_le ls nbx_sys st0 s NInv_init H) as [st [I Hle]]. exists st. rewrite <- Rho_init. auto. Qed.
 End NbxSched.
+
+(* the system runs the program notify_prog gives for typ = 6 (nbx) without payload *)
+Lemma nbx_is_notify_prog fuel P me ntop nint nbot sorted (R : list Z) sz eager extra supers :
+  notify_prog fuel 6 P me ntop nint nbot sorted R None sz eager extra supers = nbx_core fuel R None sorted (fun s g => Ret (result s g)).
+Proof. destruct eager; reflexivity. Qed.
